@@ -9,6 +9,9 @@
 (*     tridiagonal, Hall-deficient blocks),                                *)
 (*   - tall systems m x TallN described by duplicated equations and        *)
 (*     missing unknowns,                                                   *)
+(*   - the value classes (generic, real, imaginary, real symmetric, common *)
+(*     phase, mixed, small diagonal) and the small zero-diagonal patterns  *)
+(*     that force row exchanges,                                           *)
 (* and writes it as JSON to the file named by the environment variable     *)
 (* LINSYS_OUT.  The driver replays the list; it never classifies itself.   *)
 (***************************************************************************)
@@ -86,7 +89,16 @@ TallCases ==
                       c |-> Abbrev(TallClass(m, TallN, f, z))] :
                         f \in RowMaps(m), z \in ZeroColSets} : m \in 1..MaxM})
 
-Table == [small |-> SmallCases, big |-> BigCases, tall |-> TallCases]
+(* small patterns that force row exchanges (zero diagonal, full structural *)
+(* rank): crossed with every value class by the driver's case composer     *)
+PivotCases ==
+    [n \in 1..MaxN |->
+        SetToSeq({[p |-> Flat(P), c |-> Abbrev(Class(P))] :
+                     P \in {Q \in Patterns(n, n) :
+                               ZeroDiagonal(Q) /\ Class(Q) = "GenericallyRegular"}})]
+
+Table == [small |-> SmallCases, big |-> BigCases, tall |-> TallCases,
+          values |-> ValueClasses, pivot |-> PivotCases]
 
 ASSUME JsonSerialize(IOEnv.LINSYS_OUT, Table)
 
